@@ -235,6 +235,9 @@ def run(ck, tier):
     ck.guard(_own.rule_instance_owned, ck, cx, 'R12', _own.DECODERS[1:] + _own.MANAGERS, "a reply is decoded with a class another client registered (values the server never sent), or bookkeeping of another client's transactions leaks into this one", 4)
     from .c13 import r14_client_decoder_contains
     ck.guard(r14_client_decoder_contains, ck, cx, 'R13')
+    from .. import ownership as _own2
+    ck.rule('R14', 'no unsound memoisation (a caching decorator on a method, or on a function that returns a mutable container) in the modules this property rests on')
+    ck.guard(_own2.rule_no_unsafe_memo, ck, cx, 'R14', ('pymodbus.transaction', 'pymodbus.client.sync'), 'a reply or frame cached from an earlier transaction is used for this one')
     return cx.idx
 
 
